@@ -1,10 +1,146 @@
 import DFV.JsonField
+import DFV.Model.C02
+/-! driver ops of property C02.  Cell values travel as Gaussian rationals: a JSON string
+`"q"` is the real number `q`, a two-element array `["re","im"]` a complex number.  Callables
+are polynomial coefficient tables evaluated by the model at the point it is given. -/
 namespace DFV.Drv
-open Lean DFV
+open Lean DFV DFV.C02
 
-/-- driver ops of property C02 (stub: no ops yet) -/
+abbrev GQ := Rat × Rat
+
+def gqIsZero (v : GQ) : Bool := v.1 == 0 && v.2 == 0
+
+def gqOfJson (j : Json) : R GQ :=
+  match j with
+  | .arr a =>
+    match a.toList with
+    | [x, y] => do pure (← ratOfJson x, ← ratOfJson y)
+    | _ => throw "complex number must be [re, im]"
+  | _ => do pure (← ratOfJson j, 0)
+
+def gqToJson (v : GQ) : Json :=
+  if v.2 == 0 then ratToJson v.1 else .arr #[ratToJson v.1, ratToJson v.2]
+
+def ratPow (x : Rat) : Nat → Rat
+  | 0 => 1
+  | k + 1 => x * ratPow x k
+
+/-- `[{"c": num, "e": [e0, e1, …]}, …]` ↦ `p ↦ Σ c · Π p_a ^ e_a` -/
+def polyOfJson (j : Json) : R (List Rat → GQ) := do
+  let terms ← listOf (fun t => do
+    let c ← gqOfJson (← fld t "c")
+    let e ← nats t "e"
+    pure (c, e)) j
+  pure fun p =>
+    terms.foldl (fun (acc : GQ) (ce : GQ × List Nat) =>
+      let mon := (List.range ce.2.length).foldl (fun (q : Rat) a => q * ratPow (p.getD a 0) (ce.2.getD a 0)) 1
+      (acc.1 + ce.1.1 * mon, acc.2 + ce.1.2 * mon)) (0, 0)
+
+def funcOfJson (j : Json) : R (List Rat → List GQ) := do
+  let comps ← listOf polyOfJson (← fld j "comps")
+  pure fun p => comps.map fun g => g p
+
+def gndaOfJson (j : Json) : R (NDA GQ) := ndaOfJson gqOfJson (0, 0) j
+
+def gndaToJson (a : NDA GQ) : Json := ndaToJson gqToJson a
+
+def vfOfJson (j : Json) : R (VF GQ) := do
+  let mesh ← meshOfJson (← fld j "mesh")
+  let nvdim ← natOfJson (← fld j "nvdim")
+  let data ← gndaOfJson j
+  let vdims ← optStrsOfJson j "vdims"
+  pure ⟨mesh, nvdim, data, vdims⟩
+
+def leafOfJson (j : Json) : R (Leaf GQ) := do
+  let k ← strOfJson (← fld j "k")
+  match k with
+  | "scalar" => do pure (.scalar (← gqOfJson (← fld j "v")))
+  | "arr" => do pure (.arr (← gndaOfJson j))
+  | "poly" => do pure (.func (← funcOfJson j))
+  | "field" => do pure (.field (← vfOfJson (← fld j "src")))
+  | "bad" => pure .bad
+  | _ => throw s!"unknown leaf kind {k}"
+
+def dfltOfJson (j : Json) : R (Dflt GQ) := do
+  let k ← strOfJson (← fld j "k")
+  match k with
+  | "scalar" => do pure (.val (NDA.const [] (← gqOfJson (← fld j "v"))))
+  | "arr" => do pure (.val (← gndaOfJson j))
+  | "poly" => do pure (.func (← funcOfJson j))
+  | "field" => do pure (.field (← vfOfJson (← fld j "src")))
+  | "bad" => pure .bad
+  | _ => throw s!"unknown default kind {k}"
+
+def specOfJson (j : Json) : R (Spec GQ) := do
+  let k ← strOfJson (← fld j "k")
+  if k == "dict" then
+    let items ← listOf (fun e => do
+      let a ← arr e
+      match a.toList with
+      | [n, l] => do pure (← strOfJson n, ← leafOfJson l)
+      | _ => throw "dict item must be [name, leaf]") (← fld j "items")
+    let dflt ← match fldOpt j "default" with
+      | none => pure none
+      | some d => some <$> dfltOfJson d
+    pure (.dict items dflt)
+  else
+    pure (.leaf (← leafOfJson j))
+
+def forceG (a : NDA GQ) : NDA GQ := a.force (0, 0)
+
+def rowsJ (rows : List (List GQ)) : Json := listJ (listJ gqToJson) rows
+
+/-- state after an attempted assignment + whether it was accepted -/
+def afterJ (f : VF GQ) (r : M (VF GQ)) : Json :=
+  Json.mkObj [("accepted", .bool (match r with | .ok _ => true | .error _ => false)),
+    ("state", gndaToJson (forceG (f.after r).data))]
+
 def c02 (op : String) (j : Json) : Option (R Json) :=
   match op with
+  | "construct" => some do
+      let m ← meshOfJson (← fld j "mesh")
+      let nv ← natOfJson (← fld j "nvdim")
+      let s ← specOfJson (← fld j "spec")
+      pure (resJ gndaToJson ((updateValues gqIsZero s m nv).map forceG))
+  | "as_array" => some do
+      let m ← meshOfJson (← fld j "mesh")
+      let nv ← natOfJson (← fld j "nvdim")
+      let s ← specOfJson (← fld j "spec")
+      pure (resJ gndaToJson ((asArray gqIsZero s m nv).map forceG))
+  | "set_array" => some do
+      let f ← vfOfJson (← fld j "field")
+      let l ← leafOfJson (← fld j "leaf")
+      pure (afterJ f (f.setArray gqIsZero l))
+  | "update" => some do
+      let f ← vfOfJson (← fld j "field")
+      let s ← specOfJson (← fld j "spec")
+      pure (afterJ f (f.update gqIsZero s))
+  | "region2slices" => some do
+      let m ← meshOfJson (← fld j "mesh")
+      let r ← regionOfJson (← fld j "region")
+      pure (resJ (fun (p : List Nat × List Nat) => Json.arr #[natsJ p.1, natsJ p.2]) (region2slices m r))
+  | "probe" => some do
+      let f ← vfOfJson (← fld j "field")
+      let pts ← match fldOpt j "calls" with
+        | some c => listOf (listOf ratOfJson) c
+        | none => pure []
+      let labels ← match fldOpt j "comps" with
+        | some c => listOf strOfJson c
+        | none => pure []
+      let lines ← match fldOpt j "lines" with
+        | some c => listOf (fun l => do
+            pure (← rats l "p1", ← rats l "p2", ← natOfJson (← fld l "n"))) c
+        | none => pure []
+      let doIter ← match fldOpt j "iter" with
+        | some b => boolOfJson b
+        | none => pure false
+      pure (Json.mkObj [
+        ("calls", listJ (fun p => resJ (listJ gqToJson) (f.call p)) pts),
+        ("comps", listJ (fun l => resJ (fun (g : VF GQ) => gndaToJson (forceG g.data)) (f.comp gqIsZero l)) labels),
+        ("iter", if doIter then listJ (fun r => resJ (listJ gqToJson) r) f.iter else .null),
+        ("lines", listJ (fun (l : List Rat × List Rat × Nat) =>
+          resJ (fun (o : LineOut GQ) => Json.mkObj [("points", listJ ratsJ o.points),
+            ("values", rowsJ o.values), ("r2", ratsJ o.r2)]) (f.line l.1 l.2.1 l.2.2)) lines)])
   | _ => none
 
 end DFV.Drv
